@@ -1,6 +1,7 @@
 package store
 
 import (
+	"database/sql"
 	"context"
 	"fmt"
 	"math/rand"
@@ -184,3 +185,12 @@ func (k *gerKind) snapshot() tr.M {
 }
 
 var gerDeny = map[string]bool{"Start": true}
+
+func (k *gerKind) kindSeed() int64     { return k.seed }
+func (k *gerKind) setSeed(s int64)     { k.seed = s }
+func (k *gerKind) workDir() string     { return k.dir }
+
+// prepare records what process would have recorded about the block, without processing it (the block is processed by a child process).
+func (k *gerKind) prepare(op Op) {}
+
+func (k *gerKind) pool() *sql.DB { return k.node.VerifDB() }
